@@ -1,4 +1,5 @@
 import Posmint.Model.ChainSpec
+import Posmint.Lemmas.ChainFrame2
 /-!
 Association-list and bank algebra used by the transaction-level properties (C03, C11, C17) and by
 the genesis lemmas: `aget` after `aset` / `adel`, preservation of `KeysAsc`, sums, `balOf` after
@@ -8,7 +9,7 @@ Everything lives in the sub-namespace `Posmint.Chain.ChainTx` so that the names 
 the helper lemmas of the files proving the `step_*` theorems.
 -/
 namespace Posmint.Chain.ChainTx
-open Posmint.Chain
+open Posmint.Chain Posmint.Chain.F2
 
 /-! ### strings -/
 
@@ -404,7 +405,7 @@ theorem anteOK_true {s : State} {t : Tx} {sim : Bool} (h : anteOK s t sim = true
     (t.pk = true → keyAddr s t.signer = t.msg.signer s) := by
   unfold anteOK at h
   simp only [Bool.and_eq_true, decide_eq_true_eq, ge_iff_le, bne_iff_ne, ne_eq] at h
-  obtain ⟨⟨⟨⟨h1, h2⟩, _⟩, h3⟩, h4⟩ := h
+  obtain ⟨⟨⟨⟨⟨⟨h1, h2⟩, _⟩, h3⟩, h4⟩, _⟩, _⟩ := h
   refine ⟨h1, h2, h3, ?_⟩
   split at h4
   · simp at h4
@@ -436,6 +437,13 @@ theorem anteOK_true {s : State} {t : Tx} {sim : Bool} (h : anteOK s t sim = true
       rw [if_pos hpk] at hv
       simp [keyAddr, hv]
 
+
+/-- the part of the ante decision about the second denomination -/
+theorem anteOK_fee2 {s : State} {t : Tx} {sim : Bool} (h : anteOK s t sim = true) :
+    0 ≤ t.fee2 ∧ t.fee2 ≤ balOf2 s (t.msg.signer s) := by
+  unfold anteOK at h
+  simp only [Bool.and_eq_true, decide_eq_true_eq, ge_iff_le] at h
+  exact ⟨h.1.2, h.2⟩
 
 /-- a key address is not a module account -/
 theorem key_not_mod {s : State} (h : WF s) {a : Addr} (hk : ∃ k ∈ s.keys, k.2 = a) :
@@ -646,6 +654,13 @@ theorem gov_handleDoubleSign {s s1 : State} {a : Addr} {ih et pw : Int}
     have := gov_send h1
     split <;> simp [this]
 
+@[simp] theorem gov_send2_getD (s : State) (src dst : Addr) (amt : Int) :
+    gov ((send2 s src dst amt).getD s) = gov s := by
+  rw [send2_getD_frame]; rfl
+
+@[simp] theorem gov_rewardFromFees2 (s : State) : gov (rewardFromFees2 s) = gov s := by
+  rw [rewardFromFees2_frame]; rfl
+
 theorem gov_mintAwards {s s1 : State} (h : mintAwards s = some s1) : gov s1 = gov s := by
   unfold mintAwards at h
   split at h; · simp at h
@@ -683,7 +698,7 @@ theorem gov_beginBlock {s s1 : State} {time : Int} {proposer : Addr} {votes : Li
     obtain ⟨s2, h2, h3⟩ := h3
     rw [gov_burnValidators h3, gov_mintAwards h2]
     split
-    · rw [gov_rewardFromFees]; rfl
+    · rw [gov_rewardFromFees2, gov_rewardFromFees]; rfl
     · rfl
   cases h5 : votes.foldl (fun (st? : Option State) v => st?.bind fun st => handleSignature st v.addr v.power v.signed)
       (some { s3 with proposer := proposer }) with
@@ -768,7 +783,7 @@ theorem anteOK_index {s : State} {t : Tx} {sim : Bool} (h : anteOK s t sim = tru
     s.index.contains t.id = false := by
   unfold anteOK at h
   simp only [Bool.and_eq_true] at h
-  obtain ⟨⟨⟨_, hi⟩, _⟩, _⟩ := h
+  obtain ⟨⟨⟨⟨⟨_, hi⟩, _⟩, _⟩, _⟩, _⟩ := h
   simpa using hi
 
 /-- shape of a successful stake: one transfer from the (key) address to the pool; the rest of the
